@@ -111,13 +111,15 @@ func newElementByFoodReporter returns (r)
   ensures @sink [C17] bufSink == store(old(bufSink), r.output, payload(config.Output)) && bufSticky == store(old(bufSticky), r.output, false)
 
 func (*elementByFoodReporter).Process returns (err)
-  props C17 C08
+  props C17 C08 C07
   requires @args ln != nil && EbfInv(r)
   modifies mapof(r.acc), arrays(float64)
   modifies ghost(accKey, accP, accN, accH)
   ensures @inv EbfInv(r) && err == nil
   loop 1 { invariant @inv r == old(r) && ln == old(ln) && r.acc == old(r.acc) && r.output == old(r.output) && r.db == old(r.db) && EbfInv(r) && singleElement == r.config.SingleElement }
   loop 2 { invariant @inv r == old(r) && ln == old(ln) && r.acc == old(r.acc) && r.output == old(r.output) && r.db == old(r.db) && EbfInv(r) && singleElement == r.config.SingleElement && node != nil }
+  // what is accumulated per food: the recipe's own heading with quantity x its resolved amount of the chosen element
+  ghost before call 1 Add { assert @by-food [C07] repl.Name == singleElement && #arg1 == node.Header && #arg2 == repl.Value * e.Value }
 
 func (*elementByFoodReporter).printSingleElementByFoodRow
   inline
@@ -192,6 +194,7 @@ func (*regReporter).Process returns (err)
       unfold forall x string :: CPos(E0[i1 - 1].Name, E0[i1 - 1].Value, x)
       unfold forall x string :: CNeg(E0[i1 - 1].Name, E0[i1 - 1].Value, x)
       unfold forall x string :: CHas(E0[i1 - 1].Name, x)
+      assert @lines-per-food [C02 C15] prLen == at(loop1, prLen) + (if r.config.TotalsOnly then 0 else 1 + (if element.Name in RDBdom then RDBlen[element.Name] else 1))
     }
   }
   loop 2 {
@@ -201,6 +204,7 @@ func (*regReporter).Process returns (err)
     invariant @date PrintedStr(B, 0, FormatTime(ln.Time, r.config.DateFormat)) && payload(prArgs[B][0]) >= old(alloc()) && payload(prArgs[B][0]) < alloc()
     invariant @row element == E0[#i1] && 0 <= #i1 && #i1 < N0 && element.Name in RDBdom && elems(#coll) == RDB[element.Name] && len(#coll) == RDBlen[element.Name]
     invariant @acc-is AccIs(acc, E0, #i1, RDB[element.Name], #i, element.Value)
+    invariant @lines [C02] prLen == at(pre2, prLen) + (if r.config.TotalsOnly then 0 else #i)
   }
   ghost before call 1 Add {
     let j1 := #i + 1
@@ -209,6 +213,12 @@ func (*regReporter).Process returns (err)
     unfold forall x string :: SpecHas(RDB[element.Name], j1, x)
   }
   ghost after call 1 printTotalHeader { set regTB := prLen }
+  // the element / ingredient lines of the hand-written register (C02): unless --totals-only, every logged food gets its
+  // line (name, quantity) followed by one line per resolved element with quantity x amount - or the food itself
+  // when the book does not define it
+  ghost before call 1 printElement { assert @food-line [C02 C15] !r.config.TotalsOnly && #arg1 == element }
+  ghost before call 1 printIngredient { assert @ingredient-line [C02 C15] !r.config.TotalsOnly && #arg1 == repl.Name && #arg2 == repl.Value * element.Value }
+  ghost before call 2 printIngredient { assert @self-line [C02 C15] !r.config.TotalsOnly && #arg1 == element.Name && #arg2 == element.Value }
   loop 3 {
     invariant @inv r == old(r) && ln == old(ln) && WfAcc(acc) && AccView(acc) && BufStep(r.output) && len(ss) == #it && (arr(ss) == 0 || arr(ss) >= old(alloc())) && r.config == old(r.config)
     invariant @copied forall j int :: {ss[j]} 0 <= j && j < #it ==> ss[j] == #ord[j]
